@@ -413,7 +413,7 @@ def program_specs(tier, seed):
         specs.append(mk_spec("C01", f"prog{bi:02d}/{cname}/opts={oname}", src, o, to, check_trace=False))
     # generated programs (seeded): the corpus above is fixed, these change with VERIF_SEED / --seed
     from .c01_gen import generate
-    gens = generate(seed, 48 if quick else 200)
+    gens = generate(seed, 40 if quick else 200)
     for gi, (gname, gsrc, feats) in enumerate(gens):
         for o in ([OPTS[(3 + gi) % 8]] if quick else [(False, True, True), (True, False, False)]):
             oname = "".join("T" if x else "F" for x in o)
